@@ -310,12 +310,14 @@ pub proof fn lemma_min_expiry(s: Seq<ClaimableHTLC>)
 //@end
 
 // ---- claiming: all parts or none (R15 slice of ChannelManager::claim_payment_internal) ----
+// the other value in scope at the re-check: ClaimingPayment::amount_msat is computed by begin_claiming_payment as the sum of the parts it hands over
+pub struct ClaimingPayment { pub amount_msat: u64 }
 pub open spec fn parts_of(s: Seq<ClaimableHTLC>) -> Seq<MppPart> { Seq::new(s.len(), |k: int| s[k].mpp_part) }
 //@extract lightning/src/ln/channelmanager.rs :: impl ChannelManager :: fn claim_payment_internal
 //@rw R15
     fn claim_payment_internal($params:any) { $pre:any let mut claimable_amt_msat = 0; let mut expected_amt_msat = None; let mut valid_mpp = true; let mut errs = Vec::new(); let per_peer_state = $pps; for htlc in sources.iter() { $loop:any } mem::drop(per_peer_state); if $c1:cond { $r1:any } if $c2:cond { $r2:any } $rest:any }
 //@with
-    fn claim_amount_recheck(sources: &Vec<ClaimableHTLC>) -> (bool, bool) {
+    fn claim_amount_recheck(sources: &Vec<ClaimableHTLC>, claiming_payment: &ClaimingPayment) -> (bool, bool) {
         let mut claimable_amt_msat: u64 = 0; let mut expected_amt_msat: Option<u64> = None; let mut valid_mpp = true;
         let mut __i: usize = 0;   // R6: for htlc in sources.iter()
         while __i < sources.len()
@@ -338,7 +340,7 @@ pub open spec fn parts_of(s: Seq<ClaimableHTLC>) -> Seq<MppPart> { Seq::new(s.le
     }
 //@ret r
 //@requires
-    value_sum(parts_of(sources@)) <= u64::MAX,
+    value_sum(parts_of(sources@)) <= u64::MAX, claiming_payment.amount_msat as int == value_sum(parts_of(sources@)),
     // established by check_incoming_mpp_part when the set completed (proved above): every part records the same received total
     forall|a: int, b: int| 0 <= a < sources@.len() && 0 <= b < sources@.len() ==> sources@[a].mpp_part.total_value_received == sources@[b].mpp_part.total_value_received,
 //@ensures P C04 a-payment-is-claimed-only-if-every-part-announced-in-PaymentClaimable-is-still-there-the-parts-add-up-to-the-recorded-total
